@@ -6,11 +6,17 @@ FAMILIES = set("array,typed_array".split(","))
 PREFIXES = "_make_array_method|_make_typed_array_method|_create_array_constructor|_create_typed_array_constructor|_create_arraybuffer_constructor|JSArray|JSTypedArray|JSInt|JSUint|JSFloat".split("|")
 
 
+_CANON = []
+
+
 def _in_family(qual: str) -> bool:
+    if _CANON:
+        qual = _CANON[0](qual)
     return any(p in qual for p in PREFIXES)
 
 
 def run(ctx, rep):
+    _CANON[:] = [ctx.facts.canon_qual]
     tables.rule_method_tables(ctx, rep, "C17-R1", FAMILIES, floor=1)
     try:
         from ..rules import implicit
@@ -30,7 +36,7 @@ def run(ctx, rep):
     textparse.rule_includes_same_value_zero(ctx, rep, "C17-R13")
     builtins.rule_typed_array_reads_through_buffer(ctx, rep, "C17-R14")
     builtins.rule_no_read_after_write_between_views(ctx, rep, "C17-R15")
-    textparse.rule_negative_positions(ctx, rep, "C17-R12", only=lambda q: "_make_array_method" in q or "_make_typed_array_method" in q or "_create_array_constructor" in q, floor=5)
+    textparse.rule_negative_positions(ctx, rep, "C17-R12", only=lambda q: any(x in ctx.facts.canon_qual(q) for x in ("_make_array_method", "_make_typed_array_method", "_create_array_constructor")), floor=5)
     rep.undecided += ["the method result tables over the argument grid (values, not shape): a runtime differential, outside static analysis"]
     optargs.rule_missing_is_undefined(ctx, rep, "C17-R16", lambda f: _in_family(f.qual), "the Array, typed-array and ArrayBuffer methods and constructors", floor=6)
     builtins.rule_integral_double_printing(ctx, rep, "C17-R17")
